@@ -24,6 +24,7 @@ theorem exec_reach (avail : Bool) (p : Prog) (s : Backend) (h : Reachable avail 
   | set v => exact setCfg_reach avail s v h
   | getMutate => simpa [exec]
   | raise => simpa [exec]
+  | raiseBase => simpa [exec]
   | block v body ih =>
     simp only [exec]
     split
@@ -33,6 +34,7 @@ theorem exec_reach (avail : Bool) (p : Prog) (s : Backend) (h : Reachable avail 
     · rename_i s1 o heq
       have := setCfg_reach avail s v h; rw [heq] at this; exact this
   | «catch» body ih => simp only [exec]; exact ih s h
+  | catchAll body ih => simp only [exec]; exact ih s h
 
 /-- **C18_block_restores**: whatever the body does (nested blocks, set_config calls, exceptions) and
 however it is left, a `config_context` block leaves the configuration as it found it; if entering
@@ -79,6 +81,7 @@ inductive OnlyBlocks : Prog → Prop
   | seq {a b} : OnlyBlocks a → OnlyBlocks b → OnlyBlocks (.seq a b)
   | block (v body) : OnlyBlocks (.block v body)
   | catch {b} : OnlyBlocks b → OnlyBlocks (.catch b)
+  | catchAll {b} : OnlyBlocks b → OnlyBlocks (.catchAll b)
 
 theorem C18_nested (avail : Bool) (p : Prog) (hp : OnlyBlocks p) (s : Backend)
     (h : Reachable avail s) : (exec avail p s).1 = s := by
@@ -94,6 +97,7 @@ theorem C18_nested (avail : Bool) (p : Prog) (hp : OnlyBlocks p) (s : Backend)
     · exact h1
   | block v body => exact C18_block_restores avail v body s h
   | «catch» hb ih => simp only [exec]; exact ih s h
+  | catchAll hb ih => simp only [exec]; exact ih s h
 
 /-- **C18_get_is_snapshot**: reading the configuration and mutating the returned dict changes nothing -/
 theorem C18_get_is_snapshot (avail : Bool) (s : Backend) :
@@ -117,6 +121,11 @@ theorem C18_set_semantics (avail : Bool) (s : Backend) :
 theorem C18_reachable_from_default (avail : Bool) (p : Prog) :
     Reachable avail (exec avail p .mpl).1 :=
   exec_reach avail p .mpl (by simp [Reachable])
+
+/-- a block left by a `BaseException` that is not an `Exception` (KeyboardInterrupt, SystemExit) restores
+too, and the exception keeps propagating through an `except Exception` handler -/
+example : exec true (.catch (.block .plotly (.seq (.set .mpl) .raiseBase))) .mpl
+    = (.mpl, .baseExc, [.plotly, .mpl, .mpl, .mpl, .mpl]) := by decide
 
 /-- non-vacuity: a block that switches to plotly (when available), changes it again inside and is
 left by an exception ends where it started -/
